@@ -347,6 +347,9 @@ func probeStream(o *Outcome, s []byte, cuts []int, entry string) {
 	if len(s) > 4096 {
 		o.probe("stream crossing 4096")
 	}
+	if len(s) > 65536 {
+		o.probe("stream longer than 64 KiB (all events below the limit)")
+	}
 	if entry == "Connection" {
 		for i := 0; i+7 < len(s); i++ {
 			if string(s[i:i+6]) == "retry:" && (s[i+6] == '+' || s[i+6] == '-' || (s[i+6] == ' ' && (s[i+7] == '+' || s[i+7] == '-'))) {
